@@ -81,7 +81,7 @@ func c13GroupUnit(t *testing.T, G *c13G) {
 	defer r.Finish()
 	r.Rule("group." + G.name + ": elements decoded from the reference's encodings of PT = {O, +-kG, [(n+-1)/2]G, +-[s]G} (and the compressed form); " +
 		"Add on PT x PT, Dbl/Neg on PT, Mul on SC x PT, MulGen on SC with SC = curvealpha.Scalars(n, full byte width) given as byte strings and, reduced, through SetBigInt; " +
-		"results compared as encodings with the reference and through IsEqual/IsIdentity; distinct = distinct (operation, operand names)")
+		"before anything is marshalled the predicates (IsIdentity, IsEqual against the expected element, Identity(), a computed identity T+(-T), the same element by another route, a different element, and the same on Copy()) are queried directly on each freshly computed result, including the chain ((P+Q)-Q)-P; then results are compared as encodings with the reference; distinct = distinct (operation, operand names)")
 	N := G.n
 	sc := curvealpha.Scalars(N, G.width, r.Seed())
 	logs := curvealpha.PointLogs(N)
@@ -107,7 +107,45 @@ func c13GroupUnit(t *testing.T, G *c13G) {
 		}
 	}
 	// check compares a result with the reference element [log]G in every way the API offers.
+	// preds queries the Element predicates DIRECTLY on the freshly computed value,
+	// before any marshalling (MarshalBinary normalises short-Weierstrass elements in place).
+	tLog := big.NewInt(0x51ed27)
+	preds := func(op, class, id string, got group.Element, log *big.Int, payload interface{}) {
+		isID := new(big.Int).Mod(log, N).Sign() == 0
+		kind := "non-identity"
+		if isID {
+			kind = "identity"
+			r.Count("identity_results_queried", 1)
+		} else {
+			r.Count("non_identity_results_queried", 1)
+		}
+		fail := func(pred string, v, exp bool) {
+			if v != exp {
+				bad(op, "predicate:"+pred+"|fresh-result|"+kind+"|"+class, id,
+					fmt.Sprintf("%s: %s = %v on the freshly computed result %v, the reference says %v", id, pred, v, got, exp), payload)
+			}
+		}
+		fail("IsIdentity", got.IsIdentity(), isID)
+		fail("IsEqual(expected)", got.IsEqual(elt(log)), true)
+		fail("expected.IsEqual(result)", elt(log).IsEqual(got), true)
+		fail("IsEqual(Identity())", got.IsEqual(G.g.Identity()), isID)
+		fail("Identity().IsEqual(result)", G.g.Identity().IsEqual(got), isID)
+		ci := G.g.NewElement().Add(elt(tLog), elt(new(big.Int).Neg(tLog))) // an identity produced by arithmetic
+		fail("(T+(-T)).IsIdentity", ci.IsIdentity(), true)
+		fail("IsEqual(T+(-T))", got.IsEqual(ci), isID)
+		fail("(T+(-T)).IsEqual(result)", ci.IsEqual(got), isID)
+		alt := G.g.NewElement().Add(elt(new(big.Int).Sub(log, tLog)), elt(tLog)) // the same element by another route
+		fail("IsEqual(other-route)", got.IsEqual(alt), true)
+		fail("IsEqual(different-element)", got.IsEqual(elt(new(big.Int).Add(log, big.NewInt(1)))), false)
+		fail("IsEqual(-expected)", got.IsEqual(elt(new(big.Int).Neg(log))), isID)
+		cp := got.Copy()
+		fail("Copy().IsIdentity", cp.IsIdentity(), isID)
+		fail("Copy().IsEqual(result)", cp.IsEqual(got), true)
+	}
 	check := func(op, class, id string, got group.Element, log *big.Int, payload interface{}) {
+		if p, what := verifmc.Try(func() { preds(op, class, id, got, log, payload) }); p {
+			bad(op, "panic:"+verifmc.PanicClass(what)+"|predicates|"+class, id, what, payload)
+		}
 		want := G.encode(log)
 		enc, err := got.MarshalBinary()
 		if err != nil || !bytes.Equal(enc, want) {
@@ -175,7 +213,16 @@ func c13GroupUnit(t *testing.T, G *c13G) {
 			if try("Add", id+"/alias", func() { P.Add(P, Q) }) {
 				check("Add", "aliased|P="+a.Name+"|Q="+b.Name, id+"/alias", P, sum, nil)
 			}
-			r.Eval(1)
+			// chain to the identity on computed values: ((P+Q)-Q)-P, nothing marshalled in between
+			c1, c2 := G.g.NewElement(), G.g.NewElement()
+			if try("Add", id+"/chain", func() {
+				c0 := G.g.NewElement().Add(elt(a.V), elt(b.V))
+				c1.Add(c0, G.g.NewElement().Neg(elt(b.V)))
+				c2.Add(c1, G.g.NewElement().Neg(elt(a.V)))
+			}) {
+				check("Add", "chain-to-identity|P="+a.Name+"|Q="+b.Name, id+"/chain", c2, big.NewInt(0), nil)
+			}
+			r.Eval(2)
 		}
 		if idx%len(logs) == 0 {
 			for _, op := range []string{"Dbl", "Neg"} {
@@ -262,6 +309,8 @@ func c13GroupUnit(t *testing.T, G *c13G) {
 	if !G.readBack {
 		r.RequireCounter("scalar_ge_order", 5)
 	}
+	r.RequireCounter("identity_results_queried", 300)
+	r.RequireCounter("non_identity_results_queried", 1000)
 }
 
 func TestVerifC13_group_P256(t *testing.T)         { c13GroupUnit(t, c13Groups()[0]) }
